@@ -103,8 +103,13 @@ CRootLock(a) ==    \* -> commit.rootlocked
 
 \* build the new root: own tables from the private copy, every other table (and tables registered
 \* meanwhile) from the CURRENT root
+\* the new root is assembled (and whatever else the implementation does inside the root section before the store)
+CBuild(a) ==       \* -> commit.rootbuilt
+    /\ pc[a] = "commit.rootlocked" /\ Go(a, "commit.rootbuilt")
+    /\ UNCHANGED << lk, rootmu, root, txr, nreg, notified, gcreq, gcpass >>
+
 CStore(a) ==       \* -> commit.stored
-    /\ pc[a] = "commit.rootlocked"
+    /\ pc[a] = "commit.rootbuilt"
     /\ root' = [t \in (IF Mutant = "regDropped" THEN DOMAIN txr[a] ELSE DOMAIN root) |->
                    IF t \in TabsOf(a) THEN txr[a][t]
                    ELSE IF Mutant = "mergeFromBase" /\ t \in DOMAIN txr[a] THEN txr[a][t]
@@ -166,7 +171,7 @@ GScan(a) ==        \* -> gc.scanned (= "start" of its write transaction)
 StepOf(a) ==
     \/ GScan(a)
     \/ WBegin(a) \/ WLockNext(a) \/ WLoadRoot(a) \/ WWork(a)
-    \/ CIndex(a) \/ CRootLock(a) \/ CStore(a) \/ CRootUnlock(a) \/ CNotify(a) \/ CTablesUnlock(a)
+    \/ CIndex(a) \/ CRootLock(a) \/ CBuild(a) \/ CStore(a) \/ CRootUnlock(a) \/ CNotify(a) \/ CTablesUnlock(a)
     \/ CInitClose(a) \/ CReturn(a) \/ AUnlock(a) \/ AReturn(a)
     \/ RegLock(a) \/ RegStore(a) \/ RegUnlock(a)
 
@@ -195,7 +200,7 @@ Inv_C05_NoLost ==
 \* C05: registered tables never disappear
 Inv_C05_RegKept == \A t \in 1..nreg : t \in DOMAIN root
 \* C05: writers of a table are serialised (holding period = from locked to store/abort)
-Working(a) == pc[a] \in {"wtxn.locked", "wtxn.rootloaded", "commit.begin", "commit.indexes", "commit.rootlocked", "abort.begin"}
+Working(a) == pc[a] \in {"wtxn.locked", "wtxn.rootloaded", "commit.begin", "commit.indexes", "commit.rootlocked", "commit.rootbuilt", "abort.begin"}
 Inv_C05_Serial ==
     \A a, b \in Actors : a # b /\ Working(a) /\ Working(b) => TabsOf(a) \cap TabsOf(b) = {}
 \* C05: a transaction works on the newest committed state of its tables
